@@ -167,6 +167,9 @@ func c08Gen(r *Rng, tier string, emit func(string)) {
 	}
 	for i := 0; i < n; i++ {
 		pf := genPFile(r, 3, 12)
+		if i%4 == 3 {
+			mixGroups(r, pf, 4) // "for all files": groups holding more than one element type
+		}
 		skip := fmt.Sprintf("%d%d%d", r.Intn(4)/3, r.Intn(4)/3, r.Intn(4)/3)
 		emit(fmt.Sprintf("filt %d %s %s %s %s %s", 1+r.Intn(8), skip, preds(), preds(), preds(), pf.Tokens()))
 	}
